@@ -466,6 +466,18 @@ func run(out, tier string, seed int64) {
 			elements(c, &sub)
 			cases = append(cases, &dcase{Ctx: c, S: g.selector(sub)})
 		}
+		// a selector that matches the context element itself (its own tag / attribute / class):
+		// queries are about descendants, the context never matches itself
+		var numbered []*Node
+		for _, n := range all[2:] {
+			if _, ok := n.attr("data-n"); ok {
+				numbered = append(numbered, n)
+			}
+		}
+		for i := 0; i < 2 && len(numbered) > 0; i++ {
+			c := numbered[rng.Intn(len(numbered))]
+			cases = append(cases, &dcase{Ctx: c, S: g.selector([]*Node{c})})
+		}
 		docIdx := map[string]interface{}{"html": htmlText}
 		var caseIdx []interface{}
 		var histIdx []interface{}
